@@ -87,7 +87,9 @@ ANCILLARY = (
     (b'tEXt', b'Software\x00paint'), (b'bKGD', struct.pack('>HHH', 1, 2, 3)),
     (b'tIME', struct.pack('>HBBBBB', 2020, 1, 2, 3, 4, 5)), (b'sBIT', b'\x08\x08\x08\x08'),
     (b'sRGB', b'\x00'), (b'iTXt', b'Comment\x00\x00\x00\x00\x00label'), (b'prIv', b'editor private data'),
-    (b'sBIT', b'\x05\x05\x05\x05'), (b'sBIT', b'\x04\x06\x05\x08'))
+    (b'sBIT', b'\x05\x05\x05\x05'), (b'sBIT', b'\x04\x06\x05\x08'),
+    # a suggested palette: PLTE is allowed in truecolour images (PNG spec 11.2.3), some editors write one
+    (b'PLTE', bytes(range(48))))
 
 
 def dest_flavour(dest_seed):
